@@ -58,7 +58,17 @@ def check_dispositions(out: Outcome, tr: scenario.Trace, case: dict, *, strict_f
                       f"(calls: {[e.op for e in obs]}, expected {[s.op for s in steps]})", got=extra.op)
             elif len(obs) < min_len:
                 if tr.horizon_hit:
-                    out.inconclusive = True
+                    # the scenario ran into its horizon (model time + 15 s): usually it is just slow.  But a worker that has
+                    # been sitting idle for seconds while it holds the message (taken, no body running, no terminal action) has
+                    # left a delivery without its terminal action
+                    held = any(p_.kind == "held" for p_ in tr.extra.get("at_horizon", {}).get(id_, []))
+                    last_busy = max([t for t, n in tr.active_log if n > 0] + [e.t1 or 0.0 for e in tr.execs] + [e.t_done or e.t for e in tr.spy.events if e.t < tr.case.get("horizon", 0.0)] + [0.0])
+                    idle_for = tr.case.get("horizon", 0.0) - last_busy
+                    if held and tr.active == 0 and idle_for >= 8.0 and tr.run_error is None:
+                        out.v("missing-disposition", f"{tag}: expected calls {[s.op for s in steps]}, observed {[e.op for e in obs]}; the worker "
+                              f"held the message and did nothing for the last {idle_for:.1f}s before the horizon", idle_held=True)
+                    else:
+                        out.inconclusive = True
                 else:
                     out.v("missing-disposition", f"{tag}: expected calls {[s.op for s in steps]}, observed {[e.op for e in obs]}")
         # executions of the body
@@ -138,7 +148,7 @@ def _strategy(brokers):
             gen.RARE_EXC[:] = []
         # sometimes the worker's connection has no bucket brokers although jobs ask for results: storing then fails,
         # which must not change any disposition
-        if case["broker"] == "mem" and draw(st.integers(0, 5)) == 0 and not any(j.get("args") for j in case["jobs"]):
+        if case["broker"] == "mem" and draw(st.integers(0, 5)) == 0 and not any(j.get("args") is not None for j in case["jobs"]):
             case["worker_buckets"] = False
             for j in case["jobs"]:
                 # eager set_result needs a results broker at call time (it raises ValueError without one): keep the model simple
